@@ -92,7 +92,7 @@ template <int S, int D> static void check_length(Ctx &c, const std::string &unit
   for (const R &r : ranges) for (double dt : {0.5, 0.1, 0.01, 0.003}) {
     std::vector<double> seq = tr.generateTimeSequence(r.a, r.b, dt);
     // batch == pointwise
-    for (int k = 0; k <= 2; ++k) { auto bt = tr.evaluate(seq, k); ++c.st.comparisons; bool ok = bt.size() == seq.size(); for (size_t i = 0; ok && i < seq.size(); ++i) { auto v = tr.evaluate(seq[i], k); ok = bits_equal(v.data(), bt[i].data(), D); } if (!ok) { fail(fmt("batch evaluate(seq,%d) differs from pointwise", k)); return; } }
+    for (int k = 0; k <= 2 * S + 1; ++k) { auto bt = tr.evaluate(seq, k); ++c.st.comparisons; bool ok = bt.size() == seq.size(); for (size_t i = 0; ok && i < seq.size(); ++i) { auto v = tr.evaluate(seq[i], k); ok = bits_equal(v.data(), bt[i].data(), D); } if (!ok) { fail(fmt("batch evaluate(seq,%d) differs from pointwise", k)); return; } }
     { auto bt = tr.evaluate(seq, Deriv::Vel); auto b2 = tr.evaluate(seq, 1); bool ok = bt.size() == b2.size(); for (size_t i = 0; ok && i < bt.size(); ++i) ok = bits_equal(bt[i].data(), b2[i].data(), D); ++c.st.comparisons; if (!ok) { fail("batch evaluate(seq, Deriv::Vel) differs from evaluate(seq,1)"); return; } }
     double rep = tr.getTrajectoryLength(r.a, r.b, dt);
     LD riemann = 0; for (size_t i = 0; i + 1 < seq.size(); ++i) riemann += (LD)tr.evaluate(seq[i], 1).norm() * ((LD)seq[i + 1] - (LD)seq[i]);
@@ -107,6 +107,24 @@ template <int S, int D> static void check_length(Ctx &c, const std::string &unit
     if (r.a == t0 && r.b == t1) { double d1 = tr.getTrajectoryLength(dt); ++c.st.comparisons; if (!bits_equal(d1, rep)) { fail("getTrajectoryLength(dt) differs from getTrajectoryLength(start,end,dt)"); return; } if (dt == 0.01) { double d0 = tr.getTrajectoryLength(); if (!bits_equal(d0, rep)) { fail("getTrajectoryLength() default step is not 0.01"); return; } } }
   }
 }
+// the length of a RE-USED object (queried, updated, queried again with the same step) is that of its latest data
+template <int S, int D> static void check_length_reuse(Ctx &c, const std::string &unit, const Problem<D> &p) {
+  Spl<S, D> sp = build<S, D>(p);
+  Problem<D> q = p; for (int i = 0; i <= p.N; ++i) q.P.row(i) = p.P.row(p.N - i) * 1.5; q.t0 = p.t0;
+  for (double dt : {0.1, 0.01}) {
+    (void)sp.getTrajectory().getTrajectoryLength(dt); (void)sp.getTrajectory().getTrajectoryLength();
+    sp.update(q.T, q.P, q.t0, q.bc);
+    Spl<S, D> fresh = build<S, D>(q);
+    double a = sp.getTrajectory().getTrajectoryLength(dt), b = fresh.getTrajectory().getTrajectoryLength(dt), a0 = sp.getTrajectory().getTrajectoryLength(), b0 = fresh.getTrajectory().getTrajectoryLength();
+    double a3 = sp.getTrajectory().getTrajectoryLength(sp.getStartTime(), sp.getEndTime(), dt);
+    ++c.st.comparisons;
+    if (!bits_equal(a, b) || !bits_equal(a0, b0) || !bits_equal(a3, b)) { c.st.violate(unit, fmt("%s D=%d: getTrajectoryLength(%g) of a re-used spline (queried, updated, queried) = %.17g / default step %.17g / 3-argument %.17g, of a fresh spline with the same data %.17g / %.17g | %s", order_name(S), D, dt, a, a0, a3, b, b0, describe(q).c_str()), {{"what", "arc-length"}}); return; }
+    sp.update(p.T, p.P, p.t0, p.bc);
+  }
+  // PPolyND directly: a zero() factory object queried, then updated to a polyline
+  { std::vector<double> bp = {0.0, 1.0, 2.0, 4.0}; PPolyND<D> z = PPolyND<D>::zero(bp, 2); (void)z.getTrajectoryLength(0.25); typename PPolyND<D>::MatrixType C2 = PPolyND<D>::MatrixType::Zero(6, D); for (int s2 = 0; s2 < 3; ++s2) C2(2 * s2 + 1, 0) = 1.0 + s2;
+    z.update(bp, C2, 2); PPolyND<D> f2(bp, C2, 2); ++c.st.comparisons; if (!bits_equal(z.getTrajectoryLength(0.25), f2.getTrajectoryLength(0.25))) c.st.violate(unit, fmt("PPolyND<%d>: getTrajectoryLength of a zero() object updated to a polyline = %.17g, fresh object %.17g", D, z.getTrajectoryLength(0.25), f2.getTrajectoryLength(0.25)), {{"what", "arc-length"}}); }
+}
 template <int S, int D> static void explore_lengths(Ctx &c, long &id, const GL &gl) {
   const bool th = c.args.thorough();
   for (int N : {1, 2, 3, 5}) { long nw = ipow(3, N); long stride = th ? 1 : std::max(1L, nw / 9);
@@ -117,6 +135,7 @@ template <int S, int D> static void explore_lengths(Ctx &c, long &id, const GL &
       if (!c.begin(unit)) continue;
       Problem<D> p; p.N = N; p.T = word_durations(S, N, w); p.t0 = (w % 2) ? -1.5 : 0.25; set_generic_data(p, (uint64_t)c.args.seed * 100 + w);
       check_length<S, D>(c, unit, p, gl);
+      check_length_reuse<S, D>(c, unit, p);
       ++c.st.evaluations; std::string key = fmt("len/S%d/D%d/N%d/w%ld", S, D, N, w); if (!c.st.seen(key)) ++c.st.nontrivial;
       c.st.cls(fmt("arc length/%s", order_name(S)));
       if (my % 41 == 0) c.st.sample(fmt("unit %ld: %s D=%d N=%d word=%s: batch vs pointwise evaluation, getTrajectoryLength (3 overloads, full range / sub-range / zero length, dt in {0.5,0.1,0.01,0.003}) vs left Riemann sum and vs Gauss-Legendre arc length within dt*int|a|", my, order_name(S), D, N, word_str(N, w).c_str()));
